@@ -24,6 +24,9 @@ pub enum OrigMode {
   Kept,
   Modified,
   Removed,
+  /// the original stays open in this process (live `Index`, a reader and a writer handle) while
+  /// the copy is opened and used
+  KeptOpen,
 }
 
 #[derive(Debug, Clone, Copy, PartialEq, Eq, Hash, Serialize, Deserialize)]
@@ -103,7 +106,7 @@ fn run_case(hist: &[Op], mode: OrigMode, ops: &[CopyOp], naming: usize) -> Outco
   }
   // what happens to the original afterwards
   match mode {
-    OrigMode::Kept => {}
+    OrigMode::Kept | OrigMode::KeptOpen => {}
     OrigMode::Modified => {
       let idx = fs_open(&orig).expect("open original");
       let mut w = idx.writer().expect("writer");
@@ -119,6 +122,17 @@ fn run_case(hist: &[Op], mode: OrigMode, ops: &[CopyOp], naming: usize) -> Outco
       std::fs::remove_dir_all(&orig).expect("remove original");
     }
   }
+  // the original's own handles are opened before the original path is watched; from then on they
+  // only sit there
+  let orig_model = model.clone();
+  let orig_open = if mode == OrigMode::KeptOpen {
+    let idx = fs_open(&orig).expect("open original");
+    let reader = idx.reader().expect("reader on the original");
+    let writer = idx.writer().expect("writer on the original");
+    Some((idx, reader, writer))
+  } else {
+    None
+  };
   let digest_before = dir_digest(&orig);
   let versions = |id: &str, v: &str| version_doc(id, v);
   let sch = schema_s3(true);
@@ -233,6 +247,26 @@ fn run_case(hist: &[Op], mode: OrigMode, ops: &[CopyOp], naming: usize) -> Outco
       if mode == OrigMode::Removed && orig.exists() {
         return fail(None, "the removed original directory was recreated".into());
       }
+      if let Some((oidx, _reader, writer)) = orig_open {
+        // the original, still open, serves what it held when it was copied
+        drop(writer);
+        let want = expected_contents(&sch, &orig_model, &versions);
+        match vcore::catch(|| contents(&oidx)) {
+          Ok(Ok(got)) if got == want => {}
+          Ok(Ok(got)) => {
+            return fail(
+              None,
+              format!(
+                "operations on the copy changed what the still-open original serves: {} instead of {}",
+                serde_json::to_string(&got).unwrap(),
+                serde_json::to_string(&want).unwrap()
+              ),
+            )
+          }
+          Ok(Err(e)) => return fail(None, format!("the still-open original cannot be searched after the copy was used: {e:#}")),
+          Err(p) => return fail(None, format!("panic searching the still-open original: {p}")),
+        }
+      }
       Outcome { failure: None, accesses: 0, final_contents: last }
     }
   }
@@ -320,7 +354,7 @@ pub fn run(ctx: &Ctx) -> i32 {
     s.retain(|q| q.iter().position(|o| *o == CopyOp::PendingAdd).map(|p| p == q.len() - 1).unwrap_or(true));
     s
   };
-  let modes = [OrigMode::Kept, OrigMode::Modified, OrigMode::Removed];
+  let modes = [OrigMode::Kept, OrigMode::Modified, OrigMode::Removed, OrigMode::KeptOpen];
   let mut cases: Vec<(usize, OrigMode, usize, usize)> = Vec::new();
   for b in 0..bases.len() {
     for m in modes {
@@ -371,7 +405,7 @@ pub fn run(ctx: &Ctx) -> i32 {
     "transitions" => evals.load(Ordering::Relaxed),
     "traces_validated_against_impl" => evals.load(Ordering::Relaxed),
     "distinct_nontrivial" => evals.load(Ordering::Relaxed),
-    "rule" => "base states = every canonical state with >= 1 segment of a BFS over single-handle histories (tombstones, several segments, non-empty WAL included); each is copied recursively to another path; the original is then kept / modified by a further commit+compaction / removed; on the copy every sequence of <= 2 (quick) / <= 3 (thorough) operations from {add+commit, delete+commit, compact, reopen, add-without-commit} is executed between searches. libc interposition records every open/stat/unlink/rename/... whose path lies under the ORIGINAL root while the copy is used. Oracle: the copy opens; searches equal the contents model of the copy; zero accesses under the original root; original files byte-identical (or not recreated).",
+    "rule" => "base states = every canonical state with >= 1 segment of a BFS over single-handle histories (tombstones, several segments, non-empty WAL included); each is copied recursively to another path; the original is then kept / modified by a further commit+compaction / removed / kept open in this process (live Index, reader and writer handle); on the copy every sequence of <= 2 (quick) / <= 3 (thorough) operations from {add+commit, delete+commit, compact, reopen, add-without-commit} is executed between searches. libc interposition records every open/stat/unlink/rename/... whose path lies under the ORIGINAL root while the copy is used. Oracle: the copy opens; searches equal the contents model of the copy; zero accesses under the original root; original files byte-identical (or not recreated).",
     "op_sequences_per_state" => seqs.len() * 3,
     "path_namings" => "original vs backup/copy (unrelated); idx.orig vs idx (copy path is a string prefix of the original's); data vs data.bak (original path is a string prefix of the copy's)",
     "distinct_observed_outcomes" => n_out,
